@@ -224,6 +224,34 @@ def frames_and_lifetime(rec, hub, U, letters, rng, exhaustive):
         rec.event(MF, sig=f"from_df-cols|{p}", cls="from_df|columns-permuted")
         if not np.array_equal(y2.values, x.values):
             rec.violation(MF, "from_df:entries-depend-on-the-frame's-column-order", {"columns": cols})
+        # the same with rows missing (allow_missing_values): present rows under their labels, absent ones zero - in every order of the
+        # array's dimensions and of the frame's columns; also the sparse export of the permuted array read back
+        if len(base_df) > 2:
+            drop = sorted(rng.choice(len(base_df), size=max(1, len(base_df) // 3), replace=False).tolist())
+            part = base_df.drop(index=base_df.index[drop])
+            truth_part = dict(truth)
+            for r_ in drop:
+                row = base_df.iloc[r_]
+                truth_part[frozenset((n2l[c], row[c]) for c in base_df.columns if c in n2l)] = 0.0
+            for what, dims_, frame in (("dims-permuted", xp.dims, part), ("columns-permuted", x.dims, part[cols].sample(frac=1.0, random_state=int(rng.integers(0, 2**31))))):
+                rec.event(MF, sig=f"from_df-missing|{what}|{p}", cls=f"from_df|rows-missing|{what}")
+                try:
+                    y3 = fd.FlodymArray.from_df(dims=dims_, df=frame, allow_missing_values=True)
+                except Exception as e:
+                    rec.violation(MF, f"from_df:raised-for-an-incomplete-frame-although-allowed:{what}", {"order": list(p), "exc": repr(e)[:200]})
+                    continue
+                d = same_entries(truth_part, labelled(y3), True, 1.0)
+                if d is not None:
+                    rec.violation(MF, f"from_df:incomplete-frame-entries-depend-on-storage-or-column-order:{what}", {"order": list(p), "columns": list(map(str, frame.columns)), "diff": list(d[1:])})
+            x0 = fd.FlodymArray(dims=xp.dims, values=np.where(np.isin(np.arange(xp.values.size).reshape(xp.values.shape) % 3, [0]), 0.0, xp.values))
+            try:
+                y4 = fd.FlodymArray.from_df(dims=x.dims, df=x0.to_df(index=bool(rng.integers(0, 2)), sparse=True), allow_missing_values=True)
+                rec.event(MF, sig=f"sparse-roundtrip|{p}", cls="from_df|sparse-export-of-permuted-array")
+                d = same_entries(labelled(x0), labelled(y4), True, 1.0)
+                if d is not None:
+                    rec.violation(MF, "from_df:sparse-export-read-back-differs-between-storage-orders", {"order": list(p), "diff": list(d[1:])})
+            except Exception as e:
+                rec.violation(MF, "from_df:raised-on-the-sparse-export-of-a-permuted-array", {"order": list(p), "exc": repr(e)[:200]})
     # lifetime models: parameters as arrays in every order
     tdim = fd.Dimension(letter="t", name="time", items=[2000, 2002, 2005, 2006, 2010])
     extra = [U[l] for l in full[:2]]
@@ -270,6 +298,11 @@ def run(rec, hub, tier, seed, shard, nshards, budget):
     cases = [(ci, reg) for ci in range(len(plan(tier))) for reg in ("tagged", "dyadic", "real")]
     rec.exhaustive_spaces["all storage orders of every participating array (k! x k! pairs for binary operations and assignment) up to 4 dimensions, per operation configuration"] = tier == "thorough"
     rec.exhaustive_spaces["all storage orders for 3-dimensional operands"] = True
+    from ..oracles import big
+
+    rec.set_case(driver="c04.big", seed=seed, tier=tier, shard=shard, nshards=nshards, idx=shard, regime="-")
+    with hub.pause():  # direct comparison of two storage orders (the wrapper's shadow only replays small arrays)
+        big.perm_cases(rec, hub, case_nprng(seed, "c04.big", shard, 0), 3 if tier == "quick" else 6)
     for w, (ci, reg) in enumerate(cases):
         if w % nshards != shard:
             continue
@@ -286,4 +319,10 @@ def replay(rec, hub, case):
     tier = case.get("tier", "quick")
     perm.register(hub, exhaustive=(tier == "thorough"), rng=rng, max_pairs=24 if tier == "quick" else 576)
     rec.set_case(**case)
+    if case["driver"] == "c04.big":
+        from ..oracles import big
+
+        with hub.pause():
+            big.perm_cases(rec, hub, case_nprng(case["seed"], "c04.big", case.get("shard", 0), 0), 3 if tier == "quick" else 6)
+        return
     one(rec, hub, case["seed"], tier, case["idx"], case["regime"])
